@@ -6,13 +6,8 @@ import (
 	"fmt"
 	"os"
 
-	"verif/harness/internal/c20"
 	"verif/harness/internal/core"
 )
-
-var props = map[string]core.Prop{
-	"C20": c20.P{},
-}
 
 func main() {
 	id := flag.String("id", "", "property id")
@@ -25,7 +20,7 @@ func main() {
 	known := flag.String("known", "/verif/known_findings.json", "known findings file")
 	replay := flag.String("replay", "", "replay a single violation file")
 	flag.Parse()
-	p, ok := props[*id]
+	p, ok := core.Registry[*id]
 	if !ok {
 		fmt.Fprintln(os.Stderr, "unknown property", *id)
 		os.Exit(2)
